@@ -68,7 +68,33 @@ func startChild(c *wk.Ctx) (*child, error) {
 	}
 	ef.Close()
 	go func() { ch.exitErr = ch.cmd.Wait(); close(ch.exited) }()
-	line, err := ch.stdout.ReadString('\n')
+	type rd struct {
+		line string
+		err  error
+	}
+	rdc := make(chan rd, 1)
+	go func() {
+		l, e := ch.stdout.ReadString('\n')
+		rdc <- rd{l, e}
+	}()
+	var line string
+	select {
+	case r := <-rdc:
+		line, err = r.line, r.err
+	case <-time.After(90 * time.Second):
+		// a server that cannot even start is reported with its goroutine dump (inconclusive for the case)
+		ch.cmd.Process.Signal(syscall.SIGQUIT)
+		select {
+		case <-ch.exited:
+		case <-time.After(10 * time.Second):
+		}
+		se := ch.stderr()
+		if len(se) > 3000 {
+			se = se[:3000]
+		}
+		ch.kill()
+		return nil, fmt.Errorf("server child did not announce READY within 90s; its goroutines: %s", se)
+	}
 	if err != nil || !strings.HasPrefix(line, "READY ") {
 		ch.kill()
 		return nil, fmt.Errorf("server child did not start: %q %v", line, err)
@@ -295,7 +321,7 @@ func (a *attacker) randomDyn() []byte {
 
 var c12moves = []string{"dup-registerEvent", "conflicting-unregister", "foreign-ids", "wrong-object-ids", "garbage-property", "mutated-directory-call",
 	"unknown-targets", "all-message-types", "big-payload", "flood-drain-late", "flood-abrupt-close", "cut-mid-message", "reauthenticate-racing-calls",
-	"documented-removal", "mutated-arguments", "subscribe-then-vanish", "hostile-signatures", "garbage-bytes"}
+	"documented-removal", "mutated-arguments", "subscribe-then-vanish", "hostile-signatures", "garbage-bytes", "stats-and-trace"}
 
 func (a *attacker) move(name string) {
 	r := a.rng
@@ -500,6 +526,37 @@ func (a *attacker) move(name string) {
 		a.send(qnet.Call, s, o, info.Actions["blob"], append(u32(0), p.Bytes()[p.Len()-len(sig)-8:]...))
 		a.logf("dynamic value with signature %s and count 0xffffffff", clipS(sig))
 		a.drain(100 * time.Millisecond)
+	case "stats-and-trace":
+		// the generic statistics / tracing actions of every object (80-85), then traffic that is
+		// accounted and traced: known, unknown and failing actions, and a subscription to the trace signal
+		s, o := a.target()
+		if r.Intn(4) == 0 {
+			s, o = 1, 1 // the directory is an object too
+		}
+		yes, no := []byte{1}, []byte{0}
+		a.send(qnet.Call, s, o, 81, yes) // enableStats(true)
+		if r.Intn(2) == 0 {
+			a.send(qnet.Call, s, o, 85, yes) // enableTrace(true)
+			a.hid++
+			a.send(qnet.Call, s, o, 0, eventArgs(o, 86, a.hid)) // traceObject signal
+		}
+		p := make([]byte, r.Intn(16))
+		r.Read(p)
+		a.send(qnet.Call, s, o, 9000+uint32(r.Intn(50)), p) // unknown action while accounted
+		a.send(qnet.Call, s, o, work, workArgs(uint64(r.Int63()), "s"))
+		a.send(qnet.Call, s, o, work, p) // failing call
+		a.send(qnet.Call, s, o, 82, nil) // stats()
+		a.send(qnet.Call, s, o, 80, nil)
+		a.send(qnet.Call, s, o, 84, nil)
+		if r.Intn(2) == 0 {
+			a.send(qnet.Call, s, o, 83, nil) // clearStats()
+		}
+		if r.Intn(3) == 0 {
+			a.send(qnet.Call, s, o, 81, no)
+			a.send(qnet.Call, s, o, 85, no)
+		}
+		a.logf("statistics / tracing enabled on %d/%d, then known, unknown and failing calls", s, o)
+		a.drain(50 * time.Millisecond)
 	case "garbage-bytes":
 		if !a.connect() {
 			return
@@ -716,7 +773,7 @@ func (r *rawConn) callNoDeadline(service, obj, action uint32, payload []byte, _ 
 }
 
 func c12(c *wk.Ctx) {
-	c.Note("rule", "the server (directory + 2 Probe services x 3 objects, freshly generated stubs) runs in a child process of the worker; each case is a PRNG sequence of 2-7 moves by one authenticated hostile client from a grammar of 18 move kinds (duplicate / conflicting / foreign registerEvent and unregisterEvent, wrong object ids, random dynamic values at property/setProperty, directory calls with mutated ServiceInfo, unknown actions/objects/services, all eight message types, payloads up to the limit, floods of 2-10k calls drained late or cut by an abrupt close, disconnects mid-header/mid-payload, authenticate frames racing calls, hostile length fields and signatures, the documented removals terminate()/unregisterService(), random bytes). After each sequence a fresh connection authenticates, lists the directory and calls work() on every object the sequence did not legitimately remove. Oracle: the child is alive (exit or fatal error = violation with its stderr), every probe returns f(token); a probe that does not return is decided by the child's own quiescence detector (blocked forever = violation), a CPU / memory budget read from /proc, or a watchdog (inconclusive). Race reports of the child are violations. Distinct non-trivial = distinct move sequences after which at least 4 objects were probed.")
+	c.Note("rule", "the server (directory + 2 Probe services x 3 objects, freshly generated stubs) runs in a child process of the worker; each case is a PRNG sequence of 2-7 moves by one authenticated hostile client from a grammar of 19 move kinds (incl. the generic statistics / tracing actions) (duplicate / conflicting / foreign registerEvent and unregisterEvent, wrong object ids, random dynamic values at property/setProperty, directory calls with mutated ServiceInfo, unknown actions/objects/services, all eight message types, payloads up to the limit, floods of 2-10k calls drained late or cut by an abrupt close, disconnects mid-header/mid-payload, authenticate frames racing calls, hostile length fields and signatures, the documented removals terminate()/unregisterService(), random bytes). After each sequence a fresh connection authenticates, lists the directory and calls work() on every object the sequence did not legitimately remove. Oracle: the child is alive (exit or fatal error = violation with its stderr), every probe returns f(token); a probe that does not return is decided by the child's own quiescence detector (blocked forever = violation), a CPU / memory budget read from /proc, or a watchdog (inconclusive). Race reports of the child are violations. Distinct non-trivial = distinct move sequences after which at least 4 objects were probed.")
 	var ch *child
 	defer func() {
 		if ch != nil {
